@@ -18,6 +18,7 @@ func init() {
 }
 
 func runC20(p *Prog, r *Report) {
+	sentinelNeverApplied(p, r, "C20.18/unset-deadline-never-applied")
 	{
 		// what reaches standard output is what printMsg writes: nothing else reads the writer
 		R := "C20.17/stdout-only-messages"
@@ -777,4 +778,104 @@ func hasAtomPrefix(g []string, pre string) bool {
 		}
 	}
 	return false
+}
+
+// sentinelNeverApplied (C20.18): macat's timeout fields start at a negative "not given" value
+// (Initialize stores -1).  Such a field reaches a socket option only where it is known to be
+// non-negative: a negative receive deadline means "no deadline", so a loop that waits for a
+// reply per round would wait for ever on the first silent peer and never send the rest.
+func sentinelNeverApplied(p *Prog, r *Report, R string) {
+	r.Describe(R, "a timeout field whose initial value is the negative 'not given' sentinel is handed to SetOption only under a test that it is >= 0 (every way the value can reach the call is examined, also through a merged local): a negative deadline would switch the deadline off")
+	// fields of App that Initialize sets to a negative constant
+	sentinel := map[*types.Var]bool{}
+	for _, fn := range p.Funcs {
+		if rel, _ := p.FuncRel(fn); rel != "macat" {
+			continue
+		}
+		EachInstr(fn, func(in ssa.Instruction) {
+			st, ok := in.(*ssa.Store)
+			if !ok {
+				return
+			}
+			fa, ok := st.Addr.(*ssa.FieldAddr)
+			if !ok {
+				return
+			}
+			v := st.Val
+			if cv, ok := v.(*ssa.Convert); ok {
+				v = cv.X
+			}
+			if k, ok := ConstInt(v); ok && k < 0 {
+				if fv, _ := fieldAddrVar(fa); fv != nil {
+					sentinel[fv] = true
+				}
+			}
+		})
+	}
+	r.Count("c20.sentinel_fields", len(sentinel))
+	n := 0
+	for _, fn := range p.Funcs {
+		if rel, _ := p.FuncRel(fn); rel != "macat" {
+			continue
+		}
+		EachInstr(fn, func(in ssa.Instruction) {
+			c := CallOf(in)
+			if c == nil || !c.IsInvoke() || c.Method.Name() != "SetOption" || len(c.Args) != 2 {
+				return
+			}
+			// every source of the value: (field load, the atoms known on the way from it)
+			type src struct {
+				fv    *types.Var
+				atoms []string
+			}
+			var srcs []src
+			seen := map[ssa.Value]bool{}
+			var walk func(v ssa.Value, atoms []string, d int)
+			walk = func(v ssa.Value, atoms []string, d int) {
+				if v == nil || seen[v] || d > 8 {
+					return
+				}
+				seen[v] = true
+				switch x := v.(type) {
+				case *ssa.MakeInterface:
+					walk(x.X, atoms, d+1)
+				case *ssa.ChangeType:
+					walk(x.X, atoms, d+1)
+				case *ssa.Convert:
+					walk(x.X, atoms, d+1)
+				case *ssa.Phi:
+					for i, e := range x.Edges {
+						pred := x.Block().Preds[i]
+						a2 := append([]string{}, atoms...)
+						if len(pred.Instrs) > 0 {
+							a2 = append(a2, p.GuardStrings(pred.Instrs[len(pred.Instrs)-1])...)
+							if iff, ok := pred.Instrs[len(pred.Instrs)-1].(*ssa.If); ok {
+								a2 = append(a2, NormAtom(iff.Cond, pred.Succs[0] == x.Block()))
+							}
+						}
+						walk(e, a2, d+1)
+					}
+				default:
+					if fv, _, _ := loadedField(v); fv != nil && sentinel[fv] {
+						srcs = append(srcs, src{fv, atoms})
+					}
+				}
+			}
+			walk(c.Args[1], p.GuardStrings(in), 0)
+			for _, s := range srcs {
+				n++
+				ok := false
+				for _, a := range s.atoms {
+					l, op, rr := splitAtom(a)
+					if strings.HasSuffix(l, "."+s.fv.Name()) && ((op == ">=" && rr == "0") || (op == ">" && (rr == "0" || rr == "-1")) || (op == "!=" && rr == "-1")) {
+						ok = true
+					}
+				}
+				key := p.FuncName(fn) + "/" + Desc(c.Args[0]) + "<-" + s.fv.Name()
+				r.Check(ok, R, key, p.InstrPos(in), "applied only where the field is known to be >= 0", "the timeout field "+s.fv.Name()+" (initially the negative 'not given' value) can reach this SetOption without a test that it is >= 0: a negative deadline switches the deadline off, and a loop that waits for an answer per round then waits for ever")
+			}
+		})
+	}
+	r.Count("c20.sentinel_applications", n)
+	r.Check(len(sentinel) >= 2, R, "sentinel-fields", "-", fmt.Sprintf("%d fields start at a negative sentinel, %d ways into SetOption examined", len(sentinel), n), "no timeout field with a negative initial value found: the rule went blind")
 }
